@@ -286,6 +286,22 @@ fn acting_calls(pl: &Plan, prefix: &str, subset: bool) -> Vec<(String, Arg, Opti
             v.push(("symlink".to_string(), a.clone(), Some(q.clone()), vec![], 0, mcall("symlink", prefix, a, Some(q), &[], 0)));
         }
     }
+    // symlink! with the target spelled relative to the link's directory (what vfs.symlink documents): the link has to point where
+    // that spelling leads FROM THE LINK, whatever the cwd is
+    for a in pl.p1.iter().filter(|a| a.comps.len() >= 2) {
+        let parent: Vec<String> = a.comps[..a.comps.len() - 1].to_vec();
+        for q in pl.p2.iter().filter(|q| !q.comps.is_empty()) {
+            let r = rel(&parent, &q.comps);
+            if r.is_empty() {
+                continue;
+            }
+            let b = Arg { raw: r.join("/"), res: None, comps: q.comps.clone(), canon: false };
+            let mut c = mcall("symlink", prefix, a, Some(&b), &[], 0);
+            c["bc"] = json!(q.comps);
+            c["bok"] = json!("t");
+            v.push(("symlink".to_string(), a.clone(), Some(b), vec![], 0, c));
+        }
+    }
     if let (Some(e), Some(q)) = (pl.p1_extra.first(), pl.p2.get(1)) {
         // (an empty symlink TARGET is not issued: the target is documented to be taken relative to the link's directory and
         // whether "" then means that directory or is an error belongs to C10, not to the macro)
